@@ -20,6 +20,8 @@ SV = "/var/tmp/seed-verif"
 TGT = "/var/tmp/seed-target"
 meta = json.load(open(os.path.join(SD, "meta.json")))
 prop = meta["property"]
+if "--prop" in ARGS:
+    prop = ARGS[ARGS.index("--prop") + 1]
 how = str(meta.get("how_demonstrated", ""))
 m = re.search(r"--\s+(c\d+_demo\w+)", how)
 demo_filter = meta.get("demo_filter") or (m.group(1) if m else None)
@@ -92,6 +94,6 @@ lines = [l for l in r.stdout.splitlines() if l.startswith("VIOLATION") or "viola
 res["check"] = dict(tier=tier, exit=r.returncode, wall_s=round(time.time() - t0), lines=lines[:14])
 res["detected"] = r.returncode == 1 and any(l.startswith("VIOLATION") for l in lines)
 reset_wt()
-json.dump(res, open(os.path.join(SD, "result.json"), "w"), indent=1)
+json.dump(res, open(os.path.join(SD, "result.json" if prop == meta["property"] else f"result-{prop}.json"), "w"), indent=1)
 print(json.dumps({k: res[k] for k in res if k in ("id", "patch_applies", "demo_confirms", "suite_passes", "detected")}))
 print("\n".join(lines[:8]))
